@@ -79,3 +79,14 @@ claim("C12", "other",
       "Necessary bound discipline of the cache behind mate finding with caching on: an entry is used only on the edge where entry.depth >= remaining depth; Exact returned, Lower only raises alpha, Upper only lowers beta; stores carry (cutting score, Lower, cutting move) / (alpha, Upper iff not raised else Exact) / (alpha, Exact) at the root, keyed by the searched position; mate = MIN + ply, stalemate 0; only the three search sites write the cache. Whether mates are actually found is value-level and not decided.",
       "relies on C13 (no aborted values stored) and C04/C05 (keys identify positions).",
       "static analysis: decision-table extraction of the probe / store sites over rustc MIR", "DESIGN.md section 3 C12")
+
+
+claim("C05", "other",
+      "Decides the necessary structural clause the property's rationale singles out (a component that is not hashed at all, or that shares a word): the from-scratch key XORs one word for every component over all 64 squares, 4 rights, the en-passant file and the side to move; each mutator's index depends on every parameter; index maps are injective onto the table dimensions; every table element and white_turn gets its own fresh draw from one constant-seeded generator; four components use four tables. Actual distinctness of the drawn 64-bit words (XOR collisions among explored positions) is a property of the generator output and is NOT decided.",
+      "assumes distinct generator draws are distinct words and do not XOR-cancel.",
+      "static analysis: index-dependence slices + injectivity of conversion tables + initialisation coverage over rustc MIR", "DESIGN.md section 3 C05")
+
+claim("C06", "other",
+      "Magic constants validated completely against an independent geometric oracle (all 128 entries, all 107,648 blocker subsets: index width, row bound, no destructive collision), plus structural rules tying them to the code: reader and writer compute the same index over the same tables, masks drop exactly the far edge, the slow ray walk blocks each direction with the right scan, leaper initialisers normalise to exactly the rule steps with exactly the wrapping files masked, queen = rook | bishop, Kind dispatch and all_pieces occupancy. Exhaustive over squares and occupancies for the table scheme, which sampled slider tests cannot be.",
+      "conditional on rays[sq][d] being the geometric ray and get_blockers_from_index enumerating the subsets of its mask (value-level loops, not decided).",
+      "static analysis: constants extracted from the type-checked program vs geometric oracle + symbolic normalisation of initialiser expressions", "DESIGN.md section 3 C06")
